@@ -30,6 +30,7 @@ class Collector:
         self.visited = set()
         self.entries = 0
         self.paths = 0
+        self.rankings = {}      # (fn, loop head) -> rankings found by the interpreter at every analysis of that loop
 
     def run(self, name, it, st, path, self_val, args, genv=None, post_inv=None):
         """analyse one entry partition; post_inv(o, post_self) -> list of (ok, description)"""
@@ -45,6 +46,9 @@ class Collector:
             self.res.ob('R-PANIC', name, False, 'analysis failed: %s' % e, where_of(self.facts, path), key='R-PANIC:analysis:' + name)
             return []
         self.res.absorb(it)
+        for k, v in it.loop_rankings.items():
+            self.rankings.setdefault(k, []).extend(v)
+        it.loop_rankings = {}
         for o in sem_iter(outs, include_loopback=True):
             self.paths += 1
             for ob in o.obligations:
@@ -99,6 +103,8 @@ def need_driven(col, facts, name, entries):
         if u not in res.unmodelled:
             res.unmodelled.append(u)
     col.visited |= c2.visited
+    for k, v in c2.rankings.items():
+        col.rankings.setdefault(k, []).extend(v)
     col.entries += c2.entries
     col.paths += c2.paths
     res.extra.setdefault('optional_class_invariants', {})[name] = used
@@ -114,7 +120,7 @@ def check_panics(res, facts):
     need_driven(col, facts, 'midi', midi_entries)
     conversions(col, facts)
     coverage(col, facts)
-    loops(res, facts)
+    loops(res, facts, col.rankings)
     res.extra['entry_partitions'] = col.entries
     res.extra['paths'] = col.paths
     res.extra['assert_sites_visited'] = len([k for k in col.visited if '@synth_utils::' in k])
@@ -542,8 +548,11 @@ BOUNDED_NEXT = ('core::iter::range::<impl core::iter::traits::iterator::Iterator
                 "<core::slice::iter::Iter<'a, T> as core::iter::traits::iterator::Iterator>::next")
 
 
-def loops(res, facts):
-    """every loop of a reachable function is driven by a bounded iterator whose exhaustion leaves the loop"""
+def loops(res, facts, rankings=None):
+    """every loop of a reachable function is driven by a bounded iterator whose exhaustion leaves the loop, is a counted
+    loop, or has a ranking function: an integer place that the interpreter found strictly monotone on every back edge, at
+    every analysis of the loop (`rankings`, collected from the entry-point analyses)"""
+    rankings = rankings or {}
     reach = reachable_fns(facts)
     n = 0
     for p in sorted(reach):
@@ -578,6 +587,9 @@ def loops(res, facts):
                                 break
             if not ok and counted_loop(f, body):
                 ok, why = True, 'counted loop: exit guard on a local that is incremented by a positive constant every iteration against a loop-invariant bound'
+            rk = rankings.get((p, head), [])
+            if not ok and rk and all(r is not None for r in rk):
+                ok, why = True, 'ranking function (%d analyses of the loop): %s' % (len(rk), rk[0])
             res.ob('R-LOOP', '%s loop@bb%d' % (p.split('::')[-1], head), ok, why, f['span'], key='R-LOOP:%s:%d' % (p, n))
     res.extra['loops'] = n
 
